@@ -48,6 +48,8 @@ try:
                 inner = os.path.join(wt, "SEED", os.path.basename(seed.rstrip("/")))
                 os.makedirs(inner, exist_ok=True)
                 shutil.copy(d, inner)
+                envb = {k: v for k, v in dict(os.environ, CARGO_NET_OFFLINE="true").items() if k != "CARGO_TARGET_DIR"}
+                subprocess.run("cargo build --offline --quiet", cwd=wt, shell=True, env=envb, stdout=subprocess.PIPE, stderr=subprocess.STDOUT)
                 p = subprocess.run("%s %s" % (interp, os.path.join(inner, os.path.basename(d))), cwd=wt, shell=True, stdout=subprocess.PIPE,
                                    stderr=subprocess.STDOUT, text=True, timeout=2400,
                                    env={k: v for k, v in dict(os.environ, CARGO_NET_OFFLINE="true").items() if k != "CARGO_TARGET_DIR"})
